@@ -196,6 +196,23 @@ int kalign_write_msa(struct msa* msa, char* outfile, char* format)
 
         ASSERT(msa!= NULL, "No alignment");
         /* an alignment read from a file is complete but not yet in its written form */
+        if(msa->aligned == ALN_STATUS_UNKNOWN){
+                /* rows of equal length without any gap character: a gap-free alignment can be written as it is */
+                int i,j;
+                int gaps = 0;
+                int same = 1;
+                for(i = 0; i < msa->numseq;i++){
+                        for(j = 0; j <= msa->sequences[i]->len;j++){
+                                gaps += msa->sequences[i]->gaps[j];
+                        }
+                        if(msa->sequences[i]->len != msa->sequences[0]->len){
+                                same = 0;
+                        }
+                }
+                if(same && !gaps && msa->numseq){
+                        msa->aligned = ALN_STATUS_ALIGNED;
+                }
+        }
         if(msa->aligned == ALN_STATUS_ALIGNED){
                 RUN(finalise_alignment(msa));
         }
